@@ -729,12 +729,11 @@ func (c *Codec) DecodeStream(reader io.Reader) (framer.Frame, error) {
 			return errors.Newf("unknown channel key: %v", key)
 		}
 		s.DataType = dataType
-		if dataType.IsVariable() {
-			s.Data = make([]byte, dataLenOrSize)
-		} else {
-			s.Data = make([]byte, dataType.Density().Size(int64(dataLenOrSize)))
+		size := int64(dataLenOrSize)
+		if !dataType.IsVariable() {
+			size = int64(dataType.Density().Size(int64(dataLenOrSize)))
 		}
-		if _, err = c.reader.Read(s.Data); err != nil {
+		if s.Data, err = c.readData(size); err != nil {
 			return err
 		}
 		if !fgs.equalTimeRanges {
@@ -775,6 +774,32 @@ func (c *Codec) DecodeStream(reader io.Reader) (framer.Frame, error) {
 			return framer.Frame{}, err
 		}
 	}
+}
+
+// maxUnfundedRead is the most memory readData allocates ahead of the bytes that have
+// actually arrived.
+const maxUnfundedRead = 64 << 10
+
+// readData reads size bytes of series data. The size comes off the wire, so the buffer
+// is only grown as data actually arrives: a hostile length field cannot make the decoder
+// allocate more than about twice the bytes the peer really sent.
+func (c *Codec) readData(size int64) ([]byte, error) {
+	if size <= maxUnfundedRead {
+		b := make([]byte, size)
+		_, err := c.reader.Read(b)
+		return b, err
+	}
+	b := make([]byte, 0, maxUnfundedRead)
+	for int64(len(b)) < size {
+		n := min(int64(max(len(b), maxUnfundedRead)), size-int64(len(b)))
+		b = slices.Grow(b, int(n))
+		m, err := c.reader.Read(b[len(b) : len(b)+int(n)])
+		b = b[:len(b)+m]
+		if err != nil {
+			return nil, err
+		}
+	}
+	return b, nil
 }
 
 // readTimeRange reads a time range using the codec's reader.
